@@ -9,7 +9,7 @@ from . import extract as X
 
 VERIF = os.path.dirname(os.path.dirname(os.path.abspath(__file__)))
 KSRC = os.path.join(VERIF, 'kani')
-KWORK = os.path.join(VERIF, '.work', 'kani' if X.REPO == '/repo' else 'kani_alt')
+KWORK = os.path.join(VERIF, '.work', 'kani' if X.REPO == '/repo' else 'kani_' + os.path.basename(X.REPO.rstrip('/')))
 
 HARNESS_RE = re.compile(r'^(?:\w+_harness|harness)!\(\s*(\w+)\s*,', re.M)
 MISC_RE = re.compile(r'^(?:\w+!\(|pub fn )((?:misc|ctr_seekpast)_\w+)', re.M)
